@@ -176,6 +176,41 @@ def resample_siblings(model, res):
     return n
 
 
+# per-bar status of the simple markets: base bookkeeping, then THIS bar's row (unless the caller supplied one), then stored
+REF_ROW_STATUS = '''
+def set_market_status(self, data, price):
+    super().set_market_status(data, price)
+    if data.data is None:
+        data.data = self.data.loc[data.timestamp]
+    self._market_status = data
+'''
+
+REF_ROW_STATUS_ALWAYS = '''
+def set_market_status(self, data, price):
+    super().set_market_status(data, price)
+    data.data = self.data.loc[data.timestamp]
+    self._market_status = data
+'''
+
+# what the strategy is handed per bar: this bar's timestamp / row id / prices and EVERY market's current status row
+REF_SNAPSHOT = '''
+def __get_snapshot(self, timestamp, row_id, current_price):
+    snap = Snapshot(timestamp.to_pydatetime(), row_id, current_price)
+    for key in self.broker.markets:
+        snap.market_status[key] = self.broker.markets[key].market_status.data
+    snap.market_status.set_default_key(self.broker.markets.get_default_key())
+    return snap
+'''
+
+# (re)loading the per-bar status: every market before the bar's hooks; after on_bar only the markets an operation touched
+REF_SET_SNAPSHOT = '''
+def __set_market_snapshot(self, timestamp, update=False):
+    for key in self.broker.markets.keys():
+        if not update or self._broker.markets[key].has_update:
+            self._broker.markets[key].set_market_status(MarketStatus(timestamp, None), self._token_prices.loc[timestamp])
+'''
+
+
 def run(model, tier="quick"):
     res = Result("C05", EXPLANATION)
     res.rules = ["R-PHASE", "R-RECORD", "R-SIB", "R-FORMULA"]
@@ -189,6 +224,15 @@ def run(model, tier="quick"):
     effects_check(res, model, "Actuator.notify", REF_NOTIFY, "every element of the live action buffer is delivered once", ["notify", "print"], ordered=True)
     effects_check(res, model, "Actuator.switch_interval", REF_SWITCH, "every market and the price frame are resampled; the resampled index is returned",
                   ["_resample"], ordered=False)
+    for cname, ref in (("GmxMarket", REF_ROW_STATUS), ("SqueethMarket", REF_ROW_STATUS), ("GmxV2Market", REF_ROW_STATUS_ALWAYS)):
+        effects_check(res, model, cname + ".set_market_status", ref,
+                      "per-bar status: base bookkeeping, the row of THIS bar's timestamp, status stored", ["set_market_status"], rule="R-SIB")
+    effects_check(res, model, "Actuator.__get_snapshot", REF_SNAPSHOT,
+                  "snapshot: this bar's timestamp, row id and prices; every market's current status row; default key kept",
+                  ["set_default_key"], aliases={"broker": "self._broker"})
+    effects_check(res, model, "Actuator.__set_market_snapshot", REF_SET_SNAPSHOT,
+                  "status refresh: all markets before the hooks; only updated markets after on_bar; the bar's own prices",
+                  ["set_market_status"], aliases={"broker": "self._broker"})
     formula_check(res, model, "Actuator.get_test_range", REF_TEST_RANGE,
                   "the run's index is the distinct first-level timestamps of the market with the most distinct timestamps")
     effects_check(res, model, "Market.set_market_status", REF_BASE_STATUS, "per-bar flags: open iff the bar is in the market's index; has_update cleared", [])
